@@ -120,7 +120,7 @@ def _arm_chars(prog: Program, fn: ast.FunctionDef, folder: Folder) -> Tuple[Dict
 
 
 def r17_1(prog: Program, chk: Check) -> None:
-    chk.rule("R17.1", "conversion alphabet: parser regex, specifier dispatch and CPython's documented alphabets agree", floor=22)
+    chk.rule("R17.1", "conversion alphabet: parser regex, specifier dispatch and CPython's documented alphabets agree", floor=16)
     folder = Folder(prog, "format_strings")
     pattern = folder.table("_FORMAT_STRING_REGEX")
     if not isinstance(pattern, str):
